@@ -600,6 +600,36 @@ def run_c15(ctx):
                                                "old nor the complete new wallet" % n, "calls": [c[:2] for c in calls][:8]})
             if n == len(calls) and content is not None and content.decode() != new:
                 res.violations.append({"kind": "after the last system call the wallet file is not the new wallet"})
+            # … and the node is started again on what the crash left behind (scripts/utils.open_or_init_wallet): the wallet
+            # file is still a complete wallet afterwards, and what is loaded is the previous or the new wallet
+            if content is not None:
+                import contextlib
+                import skepticoin.scripts.utils as _su
+                d_ = tempfile.mkdtemp(prefix="skv-restart-")
+                cwd_ = os.getcwd()
+                try:
+                    for name_, data_ in files.items():
+                        with open(os.path.join(d_, name_), "wb") as fh_:
+                            fh_.write(data_)
+                    os.chdir(d_)
+                    try:
+                        with contextlib.redirect_stdout(io.StringIO()):
+                            w3 = _su.open_or_init_wallet()
+                        f3 = io.StringIO()
+                        w3.dump(f3)
+                        loaded = f3.getvalue()
+                    except Exception as e:
+                        loaded = "start-up raised %r" % e
+                    on_disk = open("wallet.json").read() if os.path.isfile("wallet.json") else None
+                finally:
+                    os.chdir(cwd_)
+                    shutil.rmtree(d_, ignore_errors=True)
+                res.count("restarts_after_a_crash")
+                if on_disk not in (old, new) or loaded not in (old, new):
+                    res.violations.append({"kind": "after a crash following system call %d of a save and a restart of the node, the "
+                                                   "wallet file / the wallet the node loads is neither the complete previous nor the "
+                                                   "complete new wallet (%s)" % (n, loaded[:80] if loaded not in (old, new) else "file"),
+                                           "calls": [c[:2] for c in calls][:8]})
         res.sample({"save_wallet_system_calls": [c[:2] if c[0] != "write" else ("write", c[1], len(c[2])) for c in calls][:6]})
     model = ctx.driver.ask(ops)
     kit.compare(res, ops, impl, model)
